@@ -188,7 +188,13 @@ def _ens(r):
     els = [int(x) for x in rng.choice([1, 6, 7, 8, 9, 15, 16, 17, 35], size=n)]
     base = rng.normal(size=(n, 3)) * r["spread"]
     coords = np.array([base + rng.normal(size=(n, 3)) * 0.3 for _ in range(nc)])
-    ens = ml.ConformerEnsemble(els, n_conformers=nc, coords=coords, weights=rng.uniform(0.1, 2.0, size=nc), atomic_charges=rng.normal(size=(nc, n)))
+    w = rng.uniform(0.1, 2.0, size=nc)
+    if r.get("zero_w") and nc >= 2:
+        # Boltzmann weights of high-energy conformers underflow to exactly 0: still conformers (they count in the unweighted average)
+        zero = [c for c in range(nc) if (r["zero_w"] >> c) & 1]
+        if 0 < len(zero) < nc:
+            w[zero] = 0.0
+    ens = ml.ConformerEnsemble(els, n_conformers=nc, coords=coords, weights=w, atomic_charges=rng.normal(size=(nc, n)))
     return ens
 
 
@@ -372,14 +378,14 @@ def check_fields(r) -> list[Fail]:
 
 
 def classify_fields(r):
-    return r["n_atoms"] >= 2, ["weighted" if r["weighted"] else "unweighted", f"n_conf={r['n_conf']}", "grid=" + ["float32", "float32", "float64", "int64_lattice"][r.get("grid_kind", 0) if r.get("grid_kind", 0) != 0 else 0]]
+    return r["n_atoms"] >= 2, ["weighted" if r["weighted"] else "unweighted", f"n_conf={r['n_conf']}", "some_weights_exactly_zero" if (r.get("zero_w") and r["n_conf"] >= 2) else "all_weights_positive", "grid=" + ["float32", "float32", "float64", "int64_lattice"][r.get("grid_kind", 0) if r.get("grid_kind", 0) != 0 else 0]]
 
 
 def strat_desc(tier):
     return st.fixed_dictionaries({
         "seed": st.integers(0, 10**6), "n_atoms": st.one_of(st.integers(2, 12), st.integers(2, 40)), "n_conf": st.integers(1, 4), "spread": st.sampled_from([1.5, 3.0, 6.0]),
         "gpad": st.sampled_from([0.0, 1.0, 3.0]), "gspacing": st.sampled_from([1.0, 0.7, 1.5, 2.5, 4.0]), "cut": st.sampled_from([2.0, 1.0, 3.5, 0.5]), "eps": st.sampled_from([0.5, 0.0, 0.1, 1.0]),
-        "weighted": st.booleans(), "grid_kind": st.sampled_from([0, 0, 1, 2]),
+        "weighted": st.booleans(), "grid_kind": st.sampled_from([0, 0, 1, 2]), "zero_w": st.sampled_from([0, 0, 1, 2, 5, 6]),
     })
 
 
